@@ -128,4 +128,7 @@ def obligations(tier):
             obs.append(_ob(f"n4/upd/{uname}", q=B, upd=UPDS[uname], ai=True, n=4, alpha="sel", budget=600))
     obs.append(_ob("twin/upd", q=B, upd=UPDS["field=sym"], ai=True, alpha="sel", twin=True))
     obs.append(_ob("twin/update_all", upd=UPDS["unset_tag"], all=True, ai=True, alpha="sel", twin=True))
+    if th:
+        for o in obs:
+            o["budget_s"] = max(o["budget_s"], 300)
     return _split(obs)
